@@ -16,7 +16,9 @@
      on heap order for equal prices) is not modelled: reaching it sets p_oos;
    - truncateQueue evicts whole accounts in heartbeat (wall clock) order: the order is a
      parameter [qorder] of every step, theorems quantify over it;
-   - txList.costcap/gascap are a cache of an upper bound: Filter is modelled without it;
+   - txList.costcap/gascap are a cache of an upper bound: the pool model uses Filter without
+     it; the cache itself is modelled separately (clist, cl_add, cl_filter) and proved to be
+     transparent under its invariant, which every list operation preserves;
    - lifetime eviction, journal, Qi pool, senders cache, events are not modelled. *)
 From Coq Require Import List NArith Bool.
 Import ListNotations.
@@ -509,6 +511,88 @@ Definition step (c : cfg) (p : pool) (o : op) (qo : list N) : pool * list verdic
 Definition run_hist (c : cfg) (p : pool) (h : list (op * list N)) : pool :=
   fold_left (fun s oq => fst (step c s (fst oq) (snd oq))) h p.
 
+(* ---------- tx_list.go: txList with its cached thresholds ---------- *)
+(* txList = txSortedMap + costcap ("price of the highest costing transaction") + gascap
+   ("gas limit of the highest spending transaction").  The pool model above works on the
+   plain list (l_add, l_filter, ...); this section models the cache explicitly, the proofs
+   (Proofs/C19_Cache.v) show that under the cache invariant [cap_okb] -- which every
+   operation preserves -- the cached list behaves exactly like the plain one, and the
+   harness compares it in lock step with stand-alone real txLists (list cases below). *)
+Record clist := CL { cl_txs : txl; cl_costcap : N; cl_gascap : N }.
+
+Definition cl_new : clist := CL [] 0 0.                 (* newTxList *)
+
+(* the cache invariant: both thresholds are upper bounds over the list *)
+Definition cap_okb (l : clist) : bool :=
+  forallb (fun t => (cost t <=? cl_costcap l) && (t_gas t <=? cl_gascap l)) (cl_txs l).
+
+(* txList.Add: after the replacement rule, l.txs.Put(tx), then
+   if costcap < tx.Cost() { costcap = cost }; if gascap < tx.Gas() { gascap = gas } *)
+Definition cl_add (t : tx) (bump : N) (l : clist) : option (clist * option tx) :=
+  match l_add t bump (cl_txs l) with
+  | None => None
+  | Some (txs', old) =>
+      Some (CL txs' (if cl_costcap l <? cost t then cost t else cl_costcap l)
+                    (if cl_gascap l <? t_gas t then t_gas t else cl_gascap l), old)
+  end.
+
+(* txList.Filter: short circuit on the cached thresholds; otherwise both thresholds are
+   set to the limits and the list is filtered: (removed, invalids, list) *)
+Definition cl_filter (strict : bool) (bal maxgas : N) (l : clist) : txl * txl * clist :=
+  if (cl_costcap l <=? bal) && (cl_gascap l <=? maxgas) then ([], [], l)
+  else
+    let '(removed, invalids, kept) := l_filter strict bal maxgas (cl_txs l) in
+    (removed, invalids, CL kept bal maxgas).
+
+(* the operations of txList as the pool uses them *)
+Inductive lop :=
+| LAdd (t : tx)                  (* Add(tx, priceBump) *)
+| LFilter (bal maxgas : N)       (* Filter(costLimit, gasLimit) *)
+| LForward (thr : N)             (* Forward(threshold) *)
+| LRemove (n : N)                (* Remove(tx) -- by nonce *)
+| LCap (k : N)                   (* Cap(threshold) *)
+| LReady (start : N).            (* Ready(start) *)
+
+(* result of an operation: accepted / found flag and the two returned lists (nonce order) *)
+Record lres := LR { lr_ok : bool; lr_a : txl; lr_b : txl }.
+
+Definition opt_list (o : option tx) : txl := match o with Some x => [x] | None => [] end.
+
+(* one operation on the plain list (what the pool model uses) *)
+Definition l_step (strict : bool) (bump : N) (l : txl) (o : lop) : txl * lres :=
+  match o with
+  | LAdd t => match l_add t bump l with
+              | None => (l, LR false [] [])
+              | Some (l', old) => (l', LR true (opt_list old) [])
+              end
+  | LFilter bal maxgas => let '(r, i, k) := l_filter strict bal maxgas l in (k, LR true r i)
+  | LForward thr => let '(r, k) := l_forward thr l in (k, LR true r [])
+  | LRemove n =>
+      match l_get n l with
+      | None => (l, LR false [] [])
+      | Some _ => if strict then let '(i, k) := l_remove_strict n l in (k, LR true [] i)
+                  else (l_remove n l, LR true [] [])
+      end
+  | LCap k => let '(d, kept) := l_cap k l in (kept, LR true d [])
+  | LReady start => let '(r, k) := l_ready start l in (k, LR true r [])
+  end.
+
+(* the same on the cached list: only Add and Filter touch (and consult) the thresholds *)
+Definition cl_step (strict : bool) (bump : N) (l : clist) (o : lop) : clist * lres :=
+  match o with
+  | LAdd t => match cl_add t bump l with
+              | None => (l, LR false [] [])
+              | Some (l', old) => (l', LR true (opt_list old) [])
+              end
+  | LFilter bal maxgas => let '(r, i, l') := cl_filter strict bal maxgas l in (l', LR true r i)
+  | _ => let '(txs', res) := l_step strict bump (cl_txs l) o in (CL txs' (cl_costcap l) (cl_gascap l), res)
+  end.
+
+Definition cl_run (strict : bool) (bump : N) (ops : list lop) : clist :=
+  fold_left (fun l o => fst (cl_step strict bump l o)) ops cl_new.
+Definition l_run_ops (strict : bool) (bump : N) (ops : list lop) : txl :=
+  fold_left (fun l o => fst (l_step strict bump l o)) ops [].
+
 (* ---------- correspondence check ---------- *)
 (* observation of one quiescent point, transactions as indices into the case's table *)
 Record obs := Obs {
@@ -588,7 +672,14 @@ Definition obs_eqb (a b : obs) : bool :=
    checked).  A step carries the verdict classes and the snapshot observed on the real
    pool after it, when they are to be compared. *)
 Definition cstep := (cop * option (list N) * option obs)%type.
-Definition case := (N * cfg * N * N * chainst * list tx * list (list cstep))%type.
+Definition pcase := (N * cfg * N * N * chainst * list tx * list (list cstep))%type.
+
+(* a list case: id, strict flag, price bump, and the operations applied to one stand-alone
+   real txList (hook), each with what the real list returned (flag, two lists sorted by
+   nonce) and its content and thresholds afterwards *)
+Definition lobs := (bool * txl * txl * txl * N * N)%type.   (* ok, out1, out2, content, costcap, gascap *)
+Definition lcase := (N * bool * N * list (lop * lobs))%type.
+Definition case := (pcase + lcase)%type.
 
 Fixpoint check_steps (c : cfg) (tbl : list tx) (naccts : N) (p : pool) (h : list cstep) : bool :=
   match h with
@@ -600,9 +691,38 @@ Fixpoint check_steps (c : cfg) (tbl : list tx) (naccts : N) (p : pool) (h : list
       && check_steps c tbl naccts p' r
   end.
 
-Definition case_ok (cs : case) : bool :=
+Definition pcase_ok (cs : pcase) : bool :=
   let '(_, c, price_limit, naccts, st, tbl, alts) := cs in
   existsb (check_steps c tbl naccts (init price_limit st)) alts.
 
+Fixpoint txl_eqb (a b : txl) : bool :=
+  match a, b with
+  | [], [] => true
+  | x :: a', y :: b' => tx_eqb x y && txl_eqb a' b'
+  | _, _ => false
+  end.
+
+Fixpoint check_lops (strict : bool) (bump : N) (l : clist) (h : list (lop * lobs)) : bool :=
+  match h with
+  | [] => true
+  | (o, (ok, o1, o2, content, cc, gc)) :: r =>
+      let '(l', res) := cl_step strict bump l o in
+      Bool.eqb (lr_ok res) ok && txl_eqb (lr_a res) o1 && txl_eqb (lr_b res) o2
+      && txl_eqb (cl_txs l') content && (cl_costcap l' =? cc) && (cl_gascap l' =? gc)
+      && check_lops strict bump l' r
+  end.
+
+Definition lcase_ok (cs : lcase) : bool :=
+  let '(_, strict, bump, h) := cs in check_lops strict bump cl_new h.
+
+Definition case_ok (cs : case) : bool :=
+  match cs with inl p => pcase_ok p | inr l => lcase_ok l end.
+
+Definition case_id (cs : case) : N :=
+  match cs with
+  | inl (id, _, _, _, _, _, _) => id
+  | inr (id, _, _, _) => id
+  end.
+
 Definition mismatches (cs : list case) : list N :=
-  map (fun c => let '(id, _, _, _, _, _, _) := c in id) (filter (fun c => negb (case_ok c)) cs).
+  map case_id (filter (fun c => negb (case_ok c)) cs).
